@@ -217,10 +217,15 @@ func VerifFiles(kv map[string]string) string {
 				chk(e)
 			}
 		case "rs":
-			cnf, _, err = VerifNewConfigurator(root, isPlus)
+			var lm *nginx.LocalManager
+			cnf, lm, err = VerifNewConfigurator(root, isPlus)
 			if err != nil {
 				return "setup-error"
 			}
+			// what cmd/nginx-ingress/main.go does at start-up when TLS passthrough is enabled (pinned: props/C10.py STARTUP_PIN):
+			// the hosts map is written empty before NGINX is started
+			var emptyFile []byte
+			lm.CreateTLSPassthroughHostsConfig(emptyFile)
 		default:
 			res = "bad-op"
 		}
